@@ -19,7 +19,7 @@ class Contract:
     def __init__(self, target, params, returns=None, requires=(), ensures=None, raises=None, may_raise=None,
                  modifies=(), props=(), loops=None, variants=None, yields=None, captures=None, hints=(),
                  constructs=False, gen=None, pure=False, ensures_raise=None, ghost=None, native=None,
-                 comps=None, final=None, note=''):
+                 comps=None, final=None, note='', requires_for=None, native_only=''):
         self.target = target
         self.params = dict(params)
         self.returns = returns
@@ -43,12 +43,29 @@ class Contract:
         self.comps = dict(comps or {})
         self.final = dict(final or {})             # generator exhaustion clauses
         self.note = note
+        self.native_only = native_only     # non-empty: reason why this contract is checked by the bounded stand-in only
+        self.requires_for = dict(requires_for or {})   # property id -> extra preconditions (the property's own domain)
 
     def variant_names(self):
         return list(self.variants) if self.variants else ['']
 
-    def for_variant(self, vname):
-        """Effective (params, requires, ensures, raises, may_raise, returns) for a variant."""
+    @staticmethod
+    def _filter(d, pid):
+        """clauses may be tagged  name: (expr, [property ids])  - checked only under those properties, assumed by
+        every caller"""
+        out = {}
+        for k, v in d.items():
+            if isinstance(v, tuple):
+                expr, tags = v
+                if pid is None or pid in tags:
+                    out[k] = expr
+            else:
+                out[k] = v
+        return out
+
+    def for_variant(self, vname, pid=None):
+        """Effective (params, requires, ensures, raises, may_raise, returns) for a variant; pid filters tagged
+        clauses (None = all, as seen by callers)."""
         params = dict(self.params)
         requires = list(self.requires)
         ensures = dict(self.ensures)
@@ -65,4 +82,8 @@ class Contract:
             returns = v.get('returns', returns)
             for k in v.get('drop_ensures', []):
                 ensures.pop(k, None)
+        if pid is not None:
+            requires += list(self.requires_for.get(pid, []))
+        ensures = self._filter(ensures, pid)
+        raises = self._filter(raises, pid)
         return params, requires, ensures, raises, may_raise, returns
